@@ -160,7 +160,9 @@ NoDrop == {}
 CjsNone == {{}}
 CjsLast == {{}, {N}}
 \* the chain family of the 3-file necessity configuration
-ChainKinds == {"none", "reexp", "reexp_dynamic", "dynamic"}
+ChainKinds == {"none", "reexp", "reexp_dynamic"}
+\* the kinds that make each edge kind of step 6 the only keeper in a 2-file graph (quick tier)
+DropQKinds == {"none", "named", "reexp", "dynamic", "reexp_dynamic"}
 PureOnly == {<<FALSE, TRUE>>}
 NoUses == {"none"}
 AllDrops == EdgeKindNames
